@@ -6,6 +6,7 @@ import (
 	"fmt"
 	"log/slog"
 	"testing"
+	"time"
 
 	"pgregory.net/rapid"
 	"vh/drive"
@@ -22,6 +23,10 @@ func TestMain(m *testing.M) { R.Main(m) }
 type Case struct {
 	Stream gen.Stream `json:"stream"`
 	InCap  int        `json:"in_cap"`
+	// PauseMs > 0: the producer pauses that long before it sends byte PauseAt (a live source going quiet
+	// in the middle of a segment must not change how the stream is cut).
+	PauseAt int `json:"pause_at"`
+	PauseMs int `json:"pause_ms"`
 }
 
 // Compare checks delivered messages against an expected list.
@@ -70,7 +75,16 @@ func check(c Case, o *stats.Obs) error {
 	input := c.Stream.Bytes()
 	want := gen.Expected(c.Stream)
 	CrossCheck(want, input)
-	res := drive.Run(drive.NewHandler(slog.LevelInfo), input, drive.Options{InCap: c.InCap, OutCap: 1})
+	opt := drive.Options{InCap: c.InCap, OutCap: 1}
+	if c.PauseMs > 0 {
+		opt.ProducerPause = func(i int) {
+			if i == c.PauseAt {
+				time.Sleep(time.Duration(c.PauseMs) * time.Millisecond)
+			}
+		}
+		o.Class("producer-pause")
+	}
+	res := drive.Run(drive.NewHandler(slog.LevelInfo), input, opt)
 	if key, err := Compare(res, want, input); err != nil {
 		o.Key = key
 		return err
@@ -112,7 +126,24 @@ func gen1(t *rapid.T) Case {
 	if rapid.IntRange(0, 4).Draw(t, "long") == 0 {
 		maxLen = 1023
 	}
-	return Case{Stream: gen.CleanStream(t, 10, maxLen, true), InCap: rapid.SampledFrom([]int{0, 16, 4096}).Draw(t, "inCap")}
+	c := Case{Stream: gen.CleanStream(t, 10, maxLen, true), InCap: rapid.SampledFrom([]int{0, 16, 4096}).Draw(t, "inCap")}
+	// Rarely (each costs real time): a pause of the source in the middle of a segment.
+	if rapid.IntRange(0, 299).Draw(t, "pause") == 173 { // rapid favours small values, so compare with a middle one
+		off := 0
+		var mids []int
+		for _, g := range c.Stream.Segs {
+			if len(g.Data) >= 2 {
+				mids = append(mids, off+1, off+len(g.Data)/2)
+			}
+			off += len(g.Data)
+		}
+		if len(mids) > 0 {
+			c.PauseAt = rapid.SampledFrom(mids).Draw(t, "pauseAt")
+			c.PauseMs = 300
+			c.InCap = 0
+		}
+	}
+	return c
 }
 
 var prop = stats.Prop(R, "stream", gen1, check)
